@@ -107,6 +107,23 @@ def _report(ses, rec, names, proto, fkind, akind, mode, what, public, want='ok')
              {'op': 'parse_core', 'proto': proto, 'token': '$T', 'key': '$k_pk', 'footer': None if fkind == 'none' else _txt(m.get('footer')),
               'assertion': None if akind == 'none' else _txt(m.get('assertion')), 'out': 'R0'}]
     msg = _txt(m.get('message'))
+    if mode == 'S4' and want == 'ok' and m.get('seg') != m.get('b64F') and (m.get('P') == m.get('Pa')):
+        # the payload is untouched and only the footer segment text differs from b64url(F): the model cannot name a concrete non-canonical
+        # spelling, so the confirmation tries the usual ones (padding, trailing bits, truncation, extension) on real tokens
+        import base64
+        alpha = 'ABCDEFGHIJKLMNOPQRSTUVWXYZabcdefghijklmnopqrstuvwxyz0123456789-_'
+        steps = key_steps(proto, m); alts = []
+        for fi, ftxt in enumerate([_txt(m.get('footer')) or 'f', 'f', 'fo', 'foo', 'some footer']):
+            mm = dict(m); mm['footer'] = ftxt.encode().hex()
+            steps.append(build_step(proto, mm, 'some', akind, out='T%d' % fi))
+            real = base64.urlsafe_b64encode(ftxt.encode()).decode().rstrip('=')
+            cands = [real + '=', real + '==', real[:-1], real + 'A'] + [real[:-1] + c for c in alpha if c != real[-1]]
+            for ci, c in enumerate(cands):
+                steps += [{'op': 'mutate', 'in': '$T%d' % fi, 'out': 'M%d_%d' % (fi, ci), 'ops': [{'footer_seg': c}]},
+                          {'op': 'parse_core', 'proto': proto, 'token': '$M%d_%d' % (fi, ci), 'key': '$k_pk', 'footer': ftxt, 'assertion': None if akind == 'none' else _txt(m.get('assertion')), 'out': 'R%d_%d' % (fi, ci)}]
+                alts.append([{'var': 'R%d_%d' % (fi, ci), 'is': 'ok'}])
+        ses.violation('%s %s footer=%s assertion=%s: %s (a footer segment other than b64url(F) is accepted with expected footer F)' % (proto, mode, fkind, akind, what), m, {'steps': steps, 'violated_if': alts})
+        return
     D_ = {'var': 'DIFF', 'is': 'ok'}
     if want == 'utf8': vi = [[{'var': 'R', 'is': 'err_contains', 'value': 'Utf8'}, D_]]
     elif public: vi = [[{'var': 'R', 'is': 'ok_ne', 'value': msg}], [{'var': 'R', 'is': 'ok'}, D_]]
